@@ -14,21 +14,21 @@
    Not covered by the theorem (covered by the correspondence and oracle runs): schemas with
    type "object" (named classes, deduplication through the parse state, the `required` waiver). *)
 From Statham.Model Require Import Str Json Elem PyNum Validate Tables Parser Spec6 Plain.
-From Statham.Proofs Require Import Agree_tables JsonEqProof C01Vm C01Plain C01Parse.
+From Statham.Proofs Require Import Agree_tables JsonEqProof C01Vm C01Plain C01Parse C01Thread.
 
 Theorem C01_thresholds_from_code : thr_eqb Statham.Generated.Gen_validators.thresholds thresholds = true.
 Proof. exact thresholds_agree. Qed.
 Print Assumptions C01_thresholds_from_code.
 
 Theorem C01_validity_plain : forall cfg O w S0 st e st',
-  w <> WAlways -> comp_complete cfg -> plain cfg S0 ->
+  w <> WAlways -> comp_complete cfg -> plain cfg false S0 ->
   parse_element cfg S0 st = POk (e, st') ->
   forall v, jwf v -> om (build O e (Some v)) (v6 O w S0 v).
 Proof. exact validity_plain. Qed.
 Print Assumptions C01_validity_plain.
 
 Theorem C01_accepts_iff_valid : forall cfg O S0 st e st',
-  comp_complete cfg -> plain cfg S0 -> parse_element cfg S0 st = POk (e, st') ->
+  comp_complete cfg -> plain cfg false S0 -> parse_element cfg S0 st = POk (e, st') ->
   forall v, jwf v -> ncrash (build O e (Some v)) ->
   accepts O e v = valid6 O S0 v /\ accepts O e v = valid6_strict O S0 v /\
   (build O e (Some v) = Rej <-> valid6 O S0 v = false).
@@ -42,6 +42,38 @@ Proof. exact real_comp_complete. Qed.
 Print Assumptions C01_real_config.
 
 (* the fragment is decidable by an executable checker (run by the harness on the schemas it tests) *)
-Theorem C01_plain_checker : forall cfg fuel S0, plainb cfg fuel S0 = true -> plain cfg S0.
+Theorem C01_plain_checker : forall cfg objs fuel S0, plainb cfg objs fuel S0 = true -> plain cfg objs S0.
 Proof. exact plainb_sound. Qed.
 Print Assumptions C01_plain_checker.
+
+(* ---- with object classes ---- *)
+(* Schemas may contain nodes {"type": "object"} (named classes).  Premises: the fragment with
+   objs = true (every required name of a class has a declared property whose schema has no
+   composition keyword), and `walk`: along the parse no class name repeats, so the
+   de-duplication of _ParseState returns each class itself (an earlier `==`-equal class is not a
+   verdict-preserving substitute in general: finding C17-K17).  The reference semantics is
+   valid6 = v6 with the documented waiver: a required property of a typed object may be omitted
+   when its schema declares a default. *)
+Theorem C01_validity_classes : forall cfg O S0 u u' st e st',
+  comp_exact cfg -> plain cfg true S0 -> walk cfg u S0 u' -> Inv st u ->
+  parse_element cfg S0 st = POk (e, st') ->
+  forall v, jwf v -> om (build O e (Some v)) (valid6 O S0 v).
+Proof. exact validity_classes. Qed.
+Print Assumptions C01_validity_classes.
+
+Theorem C01_validity_classes_top : forall cfg O S0 u' e st',
+  comp_exact cfg -> plain cfg true S0 -> walk cfg [] S0 u' ->
+  parse_element cfg S0 [] = POk (e, st') ->
+  forall v, jwf v -> om (build O e (Some v)) (valid6 O S0 v).
+Proof. exact validity_classes_top. Qed.
+Print Assumptions C01_validity_classes_top.
+
+Theorem C01_real_config_exact : forall u r un,
+  comp_exact (mkCfg u r un Statham.Generated.Gen_parser_tables.comp_order_now).
+Proof. exact real_comp_exact. Qed.
+Print Assumptions C01_real_config_exact.
+
+Theorem C01_fragment_checker : forall cfg objs fuel S0, in_fragment cfg objs fuel S0 = true ->
+  plain cfg objs S0 /\ exists u', walk cfg [] S0 u'.
+Proof. exact in_fragment_sound. Qed.
+Print Assumptions C01_fragment_checker.
